@@ -109,7 +109,7 @@ Proof.
     assert (Hdiv : (num * 8 + wt) / 8 = num) by (symmetry; apply (Z.div_unique _ 8 num wt); lia).
     assert (Hmod : (num * 8 + wt) mod 8 = wt) by (symmetry; apply (Z.mod_unique _ 8 num wt); lia).
     rewrite Hdiv, Hmod.
-    destruct (Z.ltb_spec num 1); [lia|]. destruct (Z.gtb_spec num 536870911); [lia|]. cbn [orb].
+    destruct (Z.ltb_spec num 1); [lia|]. destruct (Z.gtb_spec num 2147483647); [lia|]. cbn [orb].
     rewrite Nat2Z.id, skipn_app_exact. rewrite wire_value_canon by exact Hc.
     rewrite IH; [reflexivity|exact HF'|cbn in Hfuel; lia].
 Qed.
